@@ -15,10 +15,10 @@ out = {
     "add_only": True
   },
   "engines": [
-    {"name": "mc", "path": "/verif/mc", "serves_properties": [c["id"] for c in checks["checks"] if c["id"] != "C20"],
+    {"name": "mc", "path": "/verif/mc", "serves_properties": [c["id"] for c in checks["checks"] if c["id"] not in ("C19", "C20")],
      "kind_free_text": "bounded exhaustive enumeration / explicit-state BFS driver; the subject (mech-core, mech-syntax, mech-interpreter built from /repo's working tree) runs only in worker subprocesses under an address-space cap and a per-unit wall-clock budget; every case is judged against a reference model written in the harness"},
     {"name": "mcfs", "path": "/verif/mc", "serves_properties": ["C19", "C20"],
-     "kind_free_text": "the same harness built with feature `fs`, which links the top-level `mech` crate for mech::read_mech_source_file"},
+     "kind_free_text": "the same harness built with feature `fs`, which links the top-level `mech` crate for mech::read_mech_source_file (C20) and mech::MechRepl (C19)"},
   ],
   "checks": [],
   "not_applicable": [],
